@@ -14,3 +14,7 @@ FACTORY_PARAM_BASES = {
 KINEMATIC_SUBSYSTEMS = ["Frame", "PointMass", "RigidBody", "CosseratRod"]
 # methods that are only required from subsystems having an orientation (`hasattr(subsystem, "A_IB")` idiom)
 ORIENTATION_METHODS = {"A_IB", "A_IB_q", "B_Omega", "B_Omega_q", "B_Psi", "B_Psi_q", "B_Psi_u", "B_J_R", "B_J_R_q"}
+
+# Subsystems documented as supported by scalar force laws and actuators ("Object providing the interface for a scalar
+# force law, e.g., Revolute, TwoPointInteraction")
+SCALAR_SUBSYSTEMS = ["TwoPointInteraction", "Revolute"]
